@@ -141,7 +141,7 @@ theorem setValueAt_tops (L : List Str) (w : World) (top : Str) (p : KeyPath) (v 
     · rfl
   · exact this
 
-theorem resolveAt_tops (L : List Str) (orc : Oracle) (dflt : Str) (fuel : Nat) (locale : Str) (p : KeyPath)
+theorem resolveAt_tops (L : List Str) (orc : Oracle) (dflt : Foreign.Fallbacks) (fuel : Nat) (locale : Str) (p : KeyPath)
     (w w' : World) (b : Bool) (h : Foreign.resolveAt orc dflt fuel locale p w = .ok (w', b))
     (hok : TopsOK L w.nss) : TopsOK L w'.nss := by
   unfold Foreign.resolveAt at h
@@ -155,7 +155,7 @@ theorem resolveAt_tops (L : List Str) (orc : Oracle) (dflt : Str) (fuel : Nat) (
     · simp only [Res.ok.injEq, Prod.mk.injEq] at h
       rw [← h.1]; exact setValueAt_tops L w _ _ _ hok
 
-theorem resolveAll_tops (L : List Str) (orc : Oracle) (dflt : Str) (fuel : Nat) :
+theorem resolveAll_tops (L : List Str) (orc : Oracle) (dflt : Foreign.Fallbacks) (fuel : Nat) :
     ∀ (paths : List (Str × KeyPath)) (w w' : World), Foreign.resolveAll orc dflt fuel paths w = .ok w' →
       TopsOK L w.nss → TopsOK L w'.nss
   | [], w, w', h, hok => by simp [Foreign.resolveAll] at h; rw [← h]; exact hok
